@@ -194,6 +194,10 @@ StepsFinal(cov, steps) ==
 
 \* MIO populations never exceed their capacity
 MIOCapP(v) == \A g \in DOMAIN v.pops : Len(v.pops[g].sols) <= v.pops[g].cap
+\* ... where the capacity is the one the algorithm announced last: the initial size given to the archive,
+\* then the n of every shrink_solutions(n) / shrink_population(n) (MIO lowers n as the search progresses;
+\* a population that was under-filled when n was lowered must not grow past the new n later)
+MIOCapNP(v, n) == \A g \in DOMAIN v.pops : Len(v.pops[g].sols) <= n
 \* a covered target keeps exactly one solution ... and stays covered
 MIOCoveredOneP(v) == \A g \in MioSet(v) : Len(v.pops[g].sols) = 1 /\ v.pops[g].covd
 MIOStaysP(v, w) == MioSet(v) \subseteq MioSet(w)
